@@ -243,29 +243,77 @@ Definition tstep_vis (oc : bool) (p : pc) (e : event) : option pc :=
   | _ => tstep oc p e
   end.
 
-(* ---- the atomic site expected at a program point (kind, field, order): ties tstep to Gen_rootq's site lists *)
+(* ---- the atomic sites a program point may execute (kind, field, order); RootQ_proofs.tstep_site: every hook-visible
+   atomic event accepted by tstep at p is one of pc_sites p; the lists of the C functions, in program order, are
+   concatenations of pc_sites and must equal what src2v reads from the source (the sites_ lemmas of RootQ_proofs) *)
 Definition mk_site (k : akind) (f : nat) (o : morder) : site := {| s_kind := k; s_field := f; s_order := o |}.
 Definition F_pending : nat := F_dgq_pending.
 Definition F_pool : nat := F_dgq_thread_pool_size.
-Definition push_sites (prev0 : bool) : list site :=
-  [ mk_site KStore F_do_next Relaxed; mk_site KXchg F_dq_items_tail Release;
-    if prev0 then mk_site KStore F_dq_items_head Relaxed else mk_site KStore F_do_next Relaxed ].
+Definition pc_sites (oc : bool) (p : pc) : list site :=
+  match p with
+  | PPushCall _ => [ mk_site KStore F_do_next Relaxed ]
+  | PPushXchg _ _ => [ mk_site KXchg F_dq_items_tail Release ]
+  | PPushLink _ _ prev => [ if prev =? 0 then mk_site KStore F_dq_items_head Relaxed else mk_site KStore F_do_next Relaxed ]
+  | PPokeProbe _ _ _ => [ mk_site KLoad F_dq_items_tail SeqCst ]
+  | PSigInc _ _ _ => [ mk_site KAdd F_dsema_value Release ]
+  | PPendReq _ _ _ => [ if oc then mk_site KAdd F_pending Relaxed else mk_site KCas F_pending Relaxed ]
+  | PPoolLoad _ _ _ => [ mk_site KLoad F_pool SeqCst ]
+  | PPoolLoop _ _ _ _ => [ mk_site KSub F_pending Relaxed; mk_site KCasWeak F_pool Acquire ]
+  | PWStart => [ mk_site KSub F_pending Relaxed ]
+  | PDrainXchg => [ mk_site KXchg F_dq_items_head Relaxed ]
+  | PDrainCasNull => [ mk_site KCas F_dq_items_head Relaxed ]
+  | PCwEval _ _ => [ mk_site KLoad F_dq_items_head Relaxed; mk_site KAdd F_pending Relaxed; mk_site KSub F_pending Relaxed ]
+  | PCwEvalT _ _ => [ mk_site KLoad F_dq_items_tail Relaxed ]
+  | PCwOut _ => [ mk_site KSub F_pending Relaxed ]
+  | PDrainStoreNull _ => [ mk_site KStore F_dq_items_head Relaxed ]
+  | PDrainCasTail _ => [ mk_site KCas F_dq_items_tail Release ]
+  | PDrainWaitNext _ first => [ if first then mk_site KLoad F_do_next Acquire else mk_site KLoad F_ptr Relaxed ]
+  | PDrainStoreHead _ _ => [ mk_site KStore F_dq_items_head Relaxed ]
+  | PSemDec => [ mk_site KSub F_dsema_value Acquire ]
+  | PSemUndo _ => [ mk_site KCasWeak F_dsema_value Relaxed ]
+  | PExitInc => [ mk_site KAdd F_pool Release ]
+  | _ => []
+  end.
+Definition kind_code (k : akind) : Z :=
+  match k with KLoad => DV_LOAD | KStore => DV_STORE | KXchg => DV_XCHG | KCas => DV_CAS | KCasWeak => DV_CASW | KAdd => DV_ADD
+  | KSub => DV_SUB | KAnd => DV_AND | KOr => DV_OR | KXor => DV_XOR | KFence => DV_FENCE end.
+Definition mo_code (o : morder) : Z :=
+  match o with Relaxed => 0 | Consume => 1 | Acquire => 2 | Release => 3 | AcqRel => 4 | SeqCst => 5 end.
+(* where the recorder sees a field: (object, offset); do_next / the pointer waited for by _dispatch_wait_for_enqueuer
+   are the do_next field of some item *)
+Definition field_at (f : nat) (e : event) : bool :=
+  if Nat.eqb f F_dq_items_tail then (eobj e =? OBJ_Q) && (eoff e =? OFF_TAIL)
+  else if Nat.eqb f F_dq_items_head then (eobj e =? OBJ_Q) && (eoff e =? OFF_HEAD)
+  else if Nat.eqb f F_pending then (eobj e =? OBJ_Q) && (eoff e =? OFF_PEND)
+  else if Nat.eqb f F_pool then (eobj e =? OBJ_Q) && (eoff e =? OFF_POOL)
+  else if Nat.eqb f F_dsema_value then (eobj e =? OBJ_SEM) && (eoff e =? OFF_VALUE)
+  else if Nat.eqb f F_do_next || Nat.eqb f F_ptr then eobj e =? OBJ_NEXT
+  else false.
+Definition site_ok (e : event) (st : site) : bool :=
+  (ek e =? kind_code (s_kind st)) && (eord e =? mo_code (s_order st)) && field_at (s_field st) e.
+(* an event the hook reports for an os_atomic_* operation *)
+Definition is_atomic_ev (e : event) : bool := (1 <=? ek e) && (ek e <=? 11) && negb (eord e =? MO_PLAIN).
+
+Definition any_ctx := COut.
+Definition any_kont := KNull.
 Definition model_sites_push : list site :=
-  [ mk_site KStore F_do_next Relaxed; mk_site KXchg F_dq_items_tail Release; mk_site KStore F_do_next Relaxed;
-    mk_site KStore F_dq_items_head Relaxed ].
-Definition model_sites_poke : list site := [ mk_site KLoad F_dq_items_tail SeqCst ].
+  pc_sites false (PPushCall any_ctx) ++ pc_sites false (PPushXchg any_ctx 1) ++ pc_sites false (PPushLink any_ctx 1 1) ++
+  pc_sites false (PPushLink any_ctx 1 0).
+Definition model_sites_poke : list site := pc_sites false (PPokeProbe any_kont 1 0).
 Definition model_sites_poke_slow : list site :=
-  [ mk_site KAdd F_pending Relaxed; mk_site KCas F_pending Relaxed; mk_site KLoad F_pool SeqCst;
-    mk_site KSub F_pending Relaxed; mk_site KCasWeak F_pool Acquire ].
-Definition model_sites_mediator_is_gone : list site := [ mk_site KLoad F_dq_items_head Relaxed ].
-Definition model_sites_quiesced : list site := [ mk_site KLoad F_dq_items_head Relaxed; mk_site KLoad F_dq_items_tail Relaxed ].
-Definition model_sites_cwait_pending : list site := [ mk_site KAdd F_pending Relaxed; mk_site KSub F_pending Relaxed ].
+  pc_sites true (PPendReq any_kont 1 0) ++ pc_sites false (PPendReq any_kont 1 0) ++ pc_sites false (PPoolLoad any_kont 1 0) ++
+  pc_sites false (PPoolLoop any_kont 1 0 0).
+Definition model_sites_mediator_is_gone : list site := firstn 1 (pc_sites false (PCwEval false false)).
+Definition model_sites_quiesced : list site := firstn 1 (pc_sites false (PCwEval true false)) ++ pc_sites false (PCwEvalT false 0).
+Definition model_sites_cwait_pending : list site := skipn 1 (pc_sites false (PCwEval true false)).
+Definition model_sites_cwait_out : list site := pc_sites false (PCwOut 1).
 Definition model_sites_drain_one : list site :=
-  [ mk_site KXchg F_dq_items_head Relaxed; mk_site KCas F_dq_items_head Relaxed; mk_site KStore F_dq_items_head Relaxed;
-    mk_site KCas F_dq_items_tail Release; mk_site KLoad F_do_next Acquire; mk_site KStore F_dq_items_head Relaxed ].
-Definition model_sites_worker : list site := [ mk_site KSub F_pending Relaxed; mk_site KAdd F_pool Release ].
-Definition model_sites_sem_signal : list site := [ mk_site KAdd F_dsema_value Release ].
-Definition model_sites_sem_wait : list site := [ mk_site KSub F_dsema_value Acquire; mk_site KCasWeak F_dsema_value Relaxed ].
+  pc_sites false PDrainXchg ++ pc_sites false PDrainCasNull ++ pc_sites false (PDrainStoreNull 1) ++ pc_sites false (PDrainCasTail 1) ++
+  pc_sites false (PDrainWaitNext 1 true) ++ pc_sites false (PDrainStoreHead 1 1).
+Definition model_sites_wait_for_enqueuer : list site := pc_sites false (PDrainWaitNext 1 false).
+Definition model_sites_worker : list site := pc_sites false PWStart ++ pc_sites false PExitInc.
+Definition model_sites_sem_signal : list site := pc_sites false (PSigInc any_kont 1 0).
+Definition model_sites_sem_wait : list site := pc_sites false PSemDec ++ pc_sites false (PSemUndo 0).
 
 (* ------------------------------------------------------------------ global model *)
 Record gst := {
@@ -494,3 +542,51 @@ Definition conform (sv : Z) (tr : list event) : Z * Z :=
   let oc := Z.odd sv in
   let p0 := if sv / 2 =? 1 then PWStart else PNone in
   let '(p, i) := run_trace (tstep_vis oc) p0 tr 0 in (i, pc_class p).
+
+(* ------------------------------------------------------------------ a schedule in which the last wake-up is lost
+   Pool of one thread (a one-cpu machine), non-overcommit queue.  Pusher A (thread 1) pushes item 16: worker W (thread 2)
+   is created, runs it, finds the queue empty twice (the second look consumes the signal banked by A's poke), sleeps, times
+   out and undoes its decrement.  Pusher Q (thread 3) pushes item 32 onto the empty queue, signals the semaphore (nobody
+   waits: banked), takes dgq_pending and reads dgq_thread_pool_size = 0.  W gives its slot back (pool size 1), pokes:
+   signal banked, dgq_pending busy -> returns, thread ends.  Q: can_request = 0 -> drops its request.
+   Result: item 32 unclaimed, pool size 1, nothing pending, no thread left in the pool protocol: only the monitor's
+   next pass (event/workqueue.c) gets item 32 a thread (RootQ_proofs.stall_reachable, monitor_poke_creates_worker). *)
+Definition ev_call_push := mkEv DVU_CALL 0 0 0 0 OP_PUSH 0 1.
+Definition ev_st_next (x v : Z) := mkEv DV_STORE MO_RELAXED OBJ_NEXT x 8 0 v 1.
+Definition ev_xchg_tail (old new : Z) := mkEv DV_XCHG MO_RELEASE OBJ_Q OFF_TAIL 8 old new 1.
+Definition ev_st_head (v : Z) := mkEv DV_STORE MO_RELAXED OBJ_Q OFF_HEAD 8 0 v 1.
+Definition ev_ld_tail_sc (v : Z) := mkEv DV_LOAD MO_SEQ_CST OBJ_Q OFF_TAIL 8 v v 1.
+Definition ev_sem_add (old : Z) := mkEv DV_ADD MO_RELEASE OBJ_SEM OFF_VALUE 8 (u64 old) 1 1.
+Definition ev_cas_pend (obs new ok : Z) := mkEv DV_CAS MO_RELAXED OBJ_Q OFF_PEND 4 obs new ok.
+Definition ev_ld_pool (v : Z) := mkEv DV_LOAD MO_SEQ_CST OBJ_Q OFF_POOL 4 v v 1.
+Definition ev_casw_pool (obs new ok : Z) := mkEv DV_CASW MO_ACQUIRE OBJ_Q OFF_POOL 4 obs new ok.
+Definition ev_create (u : Z) := mkEv DVX_CREATE 0 0 0 0 u 0 1.
+Definition ev_sub_pend (old : Z) := mkEv DV_SUB MO_RELAXED OBJ_Q OFF_PEND 4 old 1 1.
+Definition ev_xchg_head (old : Z) := mkEv DV_XCHG MO_RELAXED OBJ_Q OFF_HEAD 8 old MED 1.
+Definition ev_pl_next (h v : Z) := mkEv DV_LOAD MO_PLAIN OBJ_NEXT h 8 v v 1.
+Definition ev_cas_tail (obs ok : Z) := mkEv DV_CAS MO_RELEASE OBJ_Q OFF_TAIL 8 obs 0 ok.
+Definition ev_cas_head (obs ok : Z) := mkEv DV_CAS MO_RELAXED OBJ_Q OFF_HEAD 8 obs 0 ok.
+Definition ev_pl_tail (v : Z) := mkEv DV_LOAD MO_PLAIN OBJ_Q OFF_TAIL 8 v v 1.
+Definition ev_sem_sub (old : Z) := mkEv DV_SUB MO_ACQUIRE OBJ_SEM OFF_VALUE 8 (u64 old) 1 1.
+Definition ev_timedwait_ret (timedout : Z) := mkEv DV_SEM_TIMEDWAIT_RET 0 OBJ_SEM OFF_SEMA 0 0 timedout 1.
+Definition ev_pl_sval (v : Z) := mkEv DV_LOAD MO_PLAIN OBJ_SEM OFF_VALUE 8 (u64 v) (u64 v) 1.
+Definition ev_casw_sval (obs new ok : Z) := mkEv DV_CASW MO_RELAXED OBJ_SEM OFF_VALUE 8 (u64 obs) (u64 new) ok.
+Definition ev_add_pool (old : Z) := mkEv DV_ADD MO_RELEASE OBJ_Q OFF_POOL 4 old 1 1.
+Definition ev_callout_begin := mkEv DVU_CALLOUT_BEGIN 0 0 0 0 0 0 1.
+Definition ev_callout_end := mkEv DVU_CALLOUT_END 0 0 0 0 0 0 1.
+
+Definition on (t : Z) (l : list event) : list (Z * event) := map (fun e => (t, e)) l.
+Definition stall_schedule : list (Z * event) :=
+  on 1 [ ev_call_push; ev_st_next 16 0; ev_xchg_tail 0 16; ev_st_head 16; ev_ld_tail_sc 16; ev_sem_add 0; ev_cas_pend 0 1 1;
+         ev_ld_pool 1; ev_casw_pool 1 0 1; ev_create 2 ] ++
+  on 2 [ ev_sub_pend 1; ev_xchg_head 16; ev_pl_next 16 0; ev_st_head 0; ev_cas_tail 16 1; ev_callout_begin; ev_callout_end;
+         ev_xchg_head 0; ev_cas_head MED 1; ev_pl_tail 0; ev_sem_sub 1;
+         ev_xchg_head 0; ev_cas_head MED 1; ev_pl_tail 0; ev_sem_sub 0; ev_timedwait_ret 1; ev_pl_sval (-1);
+         ev_casw_sval (-1) 0 1 ] ++
+  on 3 [ ev_call_push; ev_st_next 32 0; ev_xchg_tail 0 32; ev_st_head 32; ev_ld_tail_sc 32; ev_sem_add 0; ev_cas_pend 0 1 1;
+         ev_ld_pool 0 ] ++
+  on 2 [ ev_add_pool 0; ev_ld_tail_sc 32; ev_sem_add 1; ev_cas_pend 1 1 0 ] ++
+  on 3 [ ev_sub_pend 1 ].
+(* summary of a state for evaluation: head, tail, pend, pool, sval, ksem, unclaimed, program-point classes of threads 1..3 *)
+Definition summary (s : gst) : list Z * list Z :=
+  ([head s; tail s; pend s; pool s; sval s; ksem s; pc_class0 (pcs s 1); pc_class0 (pcs s 2); pc_class0 (pcs s 3)], unclaimed s).
